@@ -1230,11 +1230,11 @@ pub fn gen_document(seed: u64, with_defaults: bool) -> (Value, Vec<String>) {
 pub fn fixture_docs(big: bool) -> Vec<(String, Value)> {
     let mut paths: Vec<std::path::PathBuf> = Vec::new();
     if big {
-        paths.push("/repo/typify-impl/tests/github.json".into());
-        paths.push("/repo/typify-impl/tests/vega.json".into());
+        paths.push(crate::report::repo_root().join("typify-impl/tests/github.json"));
+        paths.push(crate::report::repo_root().join("typify-impl/tests/vega.json"));
     } else {
-        paths.push("/repo/example.json".into());
-        if let Ok(rd) = std::fs::read_dir("/repo/typify/tests/schemas") {
+        paths.push(crate::report::repo_root().join("example.json"));
+        if let Ok(rd) = std::fs::read_dir(crate::report::repo_root().join("typify/tests/schemas")) {
             let mut ps: Vec<std::path::PathBuf> = rd
                 .filter_map(|e| e.ok())
                 .map(|e| e.path())
